@@ -351,7 +351,7 @@ def hunt3_rules(chk, repo):
     """Rules written after the third defect hunt (F188, F189)."""
     for rel, cname in (("aiohttp/web_ws.py", "WebSocketResponse"), ("aiohttp/client_ws.py", "ClientWebSocketResponse")):
         cls = repo.cls(rel, cname)
-        close, recv = cls.methods["close"], cls.methods["receive"]
+        close, recv = K.with_tail_delegate(cls, "close"), cls.methods["receive"]
         # ---- C12.errclose: after the reader failed, close() does not read the failed queue again -----------------------------------------------
         # the queue re-raises the recorded WebSocketError on every read(): close() would take it for a broken handshake (1006, abort) and the
         # violation's own code (1002 / 1007 / 1009) is lost.  What close() tests before it reads is what receive() has to set first.
